@@ -5,8 +5,8 @@ KEY = "C18:range-next-overflow"
 
 
 def run(ctx: Ctx) -> int:
-    L = ctx.pick(6, 12)
-    t = ctx.pick(90, 600)
+    L = ctx.pick(6, 32)
+    t = ctx.pick(90, 1800)
     env = {"VERIF_C18_L": L}
     jobs = [Job(H, fn, timeout=t, env=env, name=f"{fn}[L={L}]") for fn in
             ("h_range3", "h_range2", "h_range1", "h_range_comptime", "h_overload_order")]
